@@ -1,5 +1,6 @@
 #!/bin/bash
 # usage: seedkeep.sh <seed-dir-name> <PROPERTY> <k> "<verdict text>"   -> /verif/seeded/<PROPERTY>-seed<k>/
+[ $# -ge 4 ] && [ -n "$1" ] && [ -f "/tmp/seed/$1/out/patch.diff" ] || { echo "usage: seedkeep.sh <seed-dir-name> <PROPERTY> <k> <verdict>  (and /tmp/seed/<seed-dir-name>/out/patch.diff must exist)"; exit 2; }
 id=$1; PID=$2; k=$3; verdict=$4
 d=/verif/seeded/$PID-seed$k; mkdir -p $d; cp /tmp/seed/$id/out/patch.diff $d/; rm -rf $d/demo; cp -r /tmp/seed/$id/out/demo $d/
 python3 - "$id" "$d" "$verdict" <<'PY'
